@@ -12,7 +12,16 @@ Sub-checks
 history    construction + op-list, all views compared after every step.
 oor_index  one out-of-range integer fed to one index-taking entry point, executed
            in a sacrificial subprocess (vlib.sandbox): the only accepted outcome
-           is IndexError with the list unchanged.
+           is IndexError with the list unchanged (membership ``(i, j) in bl``:
+           False or any exception, list unchanged - ``in`` has no docstring).
+
+Deliberately NOT judged (outside the statement / quantifier, see notes/audit/C02_applied.md)
+--------------------------------------------------------------------------------------------
+* bonds of an atom with itself (i, i): never generated.
+* offset_indices(0): the docstring says "must be positive".
+* whether ``==`` looks at the atom count (no docstring): both answers accepted, labelled.
+* remove_aromaticity() on plain AROMATIC (no formal order): ANY or unchanged accepted, labelled.
+* masks of the wrong length.
 
 Open findings (compiled code, cannot be rebuilt here)
 -----------------------------------------------------
@@ -38,14 +47,18 @@ RULE = (
     "negative indices, all bond types) followed by an op-list on a real BondList and the dict model; "
     "non-trivial = >= 1 duplicate/reversed construction pair AND >= 1 removal that removed a bond AND "
     ">= 1 index operation with an unsorted index array/list or a stepped slice selecting >= 2 atoms. "
-    "oor_index: one integer outside [-n, n) given to one index-taking entry point; non-trivial = the "
-    "list holds >= 1 bond when the index is fed"
+    "oor_index: one integer outside [-n, n) (next to the bounds, next to +-2^31, for array/list/tuple "
+    "arguments also next to +-2^32 and +-2^63) given to one index-taking entry point of a list that comes "
+    "from the constructor + in-place edits or from merge/+/concatenate/indexing; non-trivial = the "
+    "list holds >= 1 bond when the index is fed.  Never generated: bonds of an atom with itself, "
+    "offset_indices(0), masks of the wrong length"
 )
 
 INT_DTYPES = ["int8", "int16", "int32", "int64", "uint8", "uint16", "uint32", "uint64"]
 SIGNED = {"int8", "int16", "int32", "int64"}
 ARRAY_LAYOUTS = ["C", "F", "strided"]
-MASK_LAYOUTS = ["C", "strided", "reversed"]
+MASK_LAYOUTS = ["C", "strided", "reversed", "list"]  # "list" = plain Python list of bool
+NONCONTIGUOUS_MASKS = ("strided", "reversed")
 
 F1 = "C02-F1"
 F2 = "C02-F2"
@@ -62,8 +75,14 @@ SCALAR_METHODS = [
     "remove_bonds_to",
 ]
 ARRAY_METHODS = ["getitem_array", "getitem_list", "ctor_2", "ctor_3"]
+CONTAINS_METHODS = ["contains_1", "contains_2"]
 LO_KINDS = ["lo1", "lo2", "lok", "min32", "min32+1", "min32+k"]
 HI_KINDS = ["hi0", "hi1", "hi5", "hik", "max32", "max32-1", "max32-k"]
+# values that do not fit 32 bits: only for entry points that take arrays / lists / tuples (a scalar
+# argument of the compiled methods is typed int32 and fails in the argument conversion).  They
+# become a valid index if the value is cast to 32 bits before the range test.
+WIDE_LO_KINDS = ["wrap32neg", "min63"]
+WIDE_HI_KINDS = ["wrap32", "wrap32m", "max63"]
 MIRROR = {
     "lo1": "hi0",
     "lo2": "hi1",
@@ -78,7 +97,7 @@ MIRROR = {
 # building biotite objects from plain data
 # --------------------------------------------------------------------------
 F3 = "C02-F3"
-_NO_FIT = [False]  # set by the reproducer of C02-F3
+_NO_FIT = [False]  # set by the reproducer of C02-F3; (re)set at the start of every run_* call
 
 
 def _fit_dtype(dtype, n, o=None):
@@ -116,8 +135,11 @@ def _layout(arr, layout):
 def _resolve_rows(spec, n, cur):
     """Raw rows of a list spec -> concrete [i, j, type] rows for atom count n.
 
-    ``[ra, rb, t, nega, negb, self_ok]``: indices reduced modulo n, written as
-    negative (in range) indices when flagged and the dtype is signed.
+    ``[ra, rb, t, nega, negb, _]``: indices reduced modulo n (a pair of equal
+    indices is moved to the next atom: a bond of an atom with itself is outside
+    the property's quantifier; the 6th field is a leftover of the case format
+    and ignored), written as negative (in range) indices when flagged and the
+    dtype is signed.
     ``["cur", k, swap, t]``: the k-th bond of the current model (used to build
     argument lists that overlap with the list under test)."""
     signed = spec["dtype"] in SIGNED
@@ -135,11 +157,11 @@ def _resolve_rows(spec, n, cur):
                 a, b = b, a
             out.append([a, b, t])
             continue
-        ra, rb, t, nega, negb, self_ok = row
+        ra, rb, t, nega, negb = row[:5]
         if n == 0:
             continue
         a, b = ra % n, rb % n
-        if a == b and not self_ok:
+        if a == b:
             if n < 2:
                 continue
             b = (a + 1) % n
@@ -178,8 +200,25 @@ def _rebuild_from_model(model, n=None, rows=None):
 # --------------------------------------------------------------------------
 # the oracle: every view against the model
 # --------------------------------------------------------------------------
-def _view_violations(bl, m, ctx=""):
-    """list of (clause, message); empty = all views agree with the model."""
+def _dtype_for(value, dtype):
+    info = np.iinfo(dtype)
+    if info.min <= value <= info.max:
+        return dtype
+    return "int64"
+
+
+def _scalar(value, dtype):
+    """The atom index as given by the caller: a Python int (dtype None) or a NumPy integer scalar
+    (what np.where / np.nonzero / iterating over an index array hand out); a dtype that cannot hold
+    the value is widened to int64."""
+    if dtype is None:
+        return value
+    return np.dtype(_dtype_for(value, dtype)).type(value)
+
+
+def _view_violations(bl, m, ctx="", notes=None):
+    """list of (clause, message); empty = all views agree with the model.
+    ``notes``: optional set that receives labels for behaviour the property leaves open."""
     from biotite.structure import BondType
 
     v = []
@@ -223,14 +262,17 @@ def _view_violations(bl, m, ctx=""):
             if bl.as_set() != s:
                 bad("view_as_array", "as_array() is not a copy: writing into it changed the list")
 
-    # per-atom table, positive and (in range) negative index, and bl[int]
+    # per-atom table, positive and (in range) negative index, and bl[int]; the index is a Python
+    # int or (every other atom) a NumPy integer scalar of a dtype that rotates with the atom
     neigh = [sorted(m.neighbours(i)) for i in range(n)]
     for i in range(n):
-        for idx, how in ((i, "get_bonds"), (i - n, "get_bonds"), (i, "getitem")):
+        neg = _scalar(i - n, ["int64", "int32", "int16", "int8"][(i // 2) % 4]) if i % 2 else i - n
+        item = i if i % 2 else _scalar(i, INT_DTYPES[(i // 2) % 8])
+        for idx, how in ((i, "get_bonds"), (neg, "get_bonds"), (item, "getitem")):
             nb, ty = bl.get_bonds(idx) if how == "get_bonds" else bl[idx]
             got = sorted(zip(nb.tolist(), ty.tolist()))
             if got != neigh[i]:
-                bad("view_get_bonds", f"{how}({idx}) = {got}, model {neigh[i]}")
+                bad("view_get_bonds", f"{how}({idx!r}) = {got}, model {neigh[i]}")
                 break
 
     # all-atom table, -1 padding stripped
@@ -300,8 +342,15 @@ def _view_violations(bl, m, ctx=""):
     twin = _rebuild_from_model(m)
     if not (bl == twin) or not (twin == bl) or (bl != twin):
         bad("view_equality", f"list != BondList rebuilt from the model {sorted(want)} (atom count {n})")
-    if bl == _rebuild_from_model(m, n=n + 1):
-        bad("view_equality", "list == a list with another atom count")
+    # Whether two lists with the same bonds but another atom count are equal is fixed neither by the
+    # statement ("equality agrees with that mapping" = pairs -> type) nor by a docstring (__eq__ has
+    # none): both answers are accepted and labelled; the answer must be symmetric.
+    wider = _rebuild_from_model(m, n=n + 1)
+    eq_wider = bool(bl == wider)
+    if eq_wider != bool(wider == bl) or eq_wider == bool(bl != wider):
+        bad("view_equality", f"==/!= against the same bonds with atom count {n + 1}: not symmetric / == and != agree")
+    if notes is not None:
+        notes.add("eq_ignores_atom_count" if eq_wider else "eq_compares_atom_count")
     if want:
         rows = m.rows()
         rows[0] = [rows[0][0], rows[0][1], (rows[0][2] + 1) % 10]
@@ -312,8 +361,8 @@ def _view_violations(bl, m, ctx=""):
     return v
 
 
-def _compare(o, real, model, ctx):
-    for clause, msg in _view_violations(real, model, ctx):
+def _compare(o, real, model, ctx, notes=None):
+    for clause, msg in _view_violations(real, model, ctx, notes):
         o.fail(clause, msg)
     return o.ok
 
@@ -333,6 +382,7 @@ class _State:
         self.stepped_slice = False
         self.neg_index = False
         self.excluded = []
+        self.aliased = False
 
     def shadow(self, obj, model, desc):
         self.shadows.append((obj, model.snapshot(), desc))
@@ -390,33 +440,52 @@ def _apply(o, st_, op):
     n = model.n
     st_.labels.add(name)
 
+    def np_scalar(rest):
+        """optional trailing op field: dtype of the NumPy scalar the atom indices are given as"""
+        dt = rest[0] if rest else None
+        if dt is not None:
+            st_.labels.add("index_numpy_scalar")
+        return dt
+
+    def argument(spec, n_arg, cur):
+        """the other operand: a fresh list built from the spec, or (spec "self") the list under
+        test itself (aliased operand)"""
+        if spec == "self":
+            st_.aliased = True
+            st_.labels.add(f"aliased_{name}")
+            return real, model
+        return _build(spec, n_arg, cur)
+
     if name in ("add", "remove"):
-        _, ra, rb, nega, negb, t, mode, self_ok = op
+        _, ra, rb, nega, negb, t, mode, _unused, *rest = op
+        sdt = np_scalar(rest)
         if n == 0:
             st_.labels.add("skipped_n=0")
             return True
-        a, b = ra % n, rb % n
-        if a == b and not self_ok and name == "add":
+        if ra % n == rb % n:
+            # a bond of an atom with itself is outside the quantifier: take the next atom
             if n < 2:
-                st_.labels.add("skipped_n=0")
+                st_.labels.add("skipped_n<2")
                 return True
-            rb = a + 1
+            rb = ra % n + 1
         a, b = _atom(st_, ra, nega), _atom(st_, rb, negb)
+        ga, gb = _scalar(a, sdt), _scalar(b, sdt)  # as given to the real list
         if name == "add":
             if mode == 2:
-                real.add_bond(a, b)
+                real.add_bond(ga, gb)
                 existed = model.add(a, b, 0)
             else:
-                real.add_bond(a, b, _bond_type_arg(t, mode))
+                real.add_bond(ga, gb, _bond_type_arg(t, mode))
                 existed = model.add(a, b, t)
             st_.labels.add("add_updates_existing" if existed else "add_new")
         else:
-            real.remove_bond(a, b)
+            real.remove_bond(ga, gb)
             st_.removed += model.remove(a, b)
         return True
 
     if name in ("add_existing", "remove_existing", "remove_to_bonded"):
-        _, k, swap, nega, negb, t, mode = op
+        _, k, swap, nega, negb, t, mode, *rest = op
+        sdt = np_scalar(rest)
         keys = model.keys()
         if not keys:
             st_.labels.add("skipped_no_bonds")
@@ -425,43 +494,47 @@ def _apply(o, st_, op):
         if swap:
             a, b = b, a
         a, b = _atom(st_, a, nega), _atom(st_, b, negb)
+        old = model.b[key_of(a % n, b % n)]
+        ga, gb = _scalar(a, sdt), _scalar(b, sdt)  # as given to the real list
         if name == "add_existing":
-            old = model.b[key_of(a % n, b % n)]
-            real.add_bond(a, b, _bond_type_arg(t, mode))
+            real.add_bond(ga, gb, _bond_type_arg(t, mode))
             model.add(a, b, t)
             st_.labels.add("add_updates_existing")
             if old != t:
                 st_.labels.add("add_changes_type")
         elif name == "remove_existing":
-            real.remove_bond(a, b)
+            real.remove_bond(ga, gb)
             st_.removed += model.remove(a, b)
         else:
-            real.remove_bonds_to(a)
+            real.remove_bonds_to(ga)
             st_.removed += model.remove_to(a)
         return True
 
     if name == "remove_to":
-        _, ra, neg = op
+        _, ra, neg, *rest = op
+        sdt = np_scalar(rest)
         if n == 0:
             st_.labels.add("skipped_n=0")
             return True
         a = _atom(st_, ra, neg)
-        real.remove_bonds_to(a)
+        real.remove_bonds_to(_scalar(a, sdt))
         st_.removed += model.remove_to(a)
         return True
 
     if name == "remove_bonds":
         _, spec, same_n, n2 = op
-        other_r, other_m = _build(spec, n if same_n else n2, model)
+        other_r, other_m = argument(spec, n if same_n else n2, model)
         real.remove_bonds(other_r)
         st_.removed += model.remove_bonds(other_m)
-        st_.shadow(other_r, other_m, "argument of remove_bonds")
+        if other_r is not real:
+            st_.shadow(other_r, other_m, "argument of remove_bonds")
         return True
 
     if name == "merge":
         _, spec, same_n, n2, self_is_arg = op
-        other_r, other_m = _build(spec, n if same_n else n2, model)
-        st_.ctor_dups += other_m.ctor_collisions
+        other_r, other_m = argument(spec, n if same_n else n2, model)
+        if other_r is not real:
+            st_.ctor_dups += other_m.ctor_collisions
         if model.merge_overlap(other_m):
             st_.labels.add("merge_type_conflict")
         if self_is_arg:
@@ -469,26 +542,28 @@ def _apply(o, st_, op):
         else:
             new_r, new_m = real.merge(other_r), model.merge(other_m)
         st_.shadow(real, model, "receiver of merge")
-        st_.shadow(other_r, other_m, "argument of merge")
+        if other_r is not real:
+            st_.shadow(other_r, other_m, "argument of merge")
         st_.real, st_.model = new_r, new_m
         return True
 
     if name == "plus":
         _, spec, n2, other_first = op
-        other_r, other_m = _build(spec, n2, None)
+        other_r, other_m = argument(spec, n2, None)
         if other_first:
             new_r, new_m = other_r + real, BondModel.concatenate([other_m, model])
         else:
             new_r, new_m = real + other_r, BondModel.concatenate([model, other_m])
         st_.shadow(real, model, "operand of +")
-        st_.shadow(other_r, other_m, "operand of +")
+        if other_r is not real:
+            st_.shadow(other_r, other_m, "operand of +")
         st_.real, st_.model = new_r, new_m
         return True
 
     if name == "concat":
         _, before, after, container = op
-        pre = [_build(s, k, None) for s, k in before]
-        post = [_build(s, k, None) for s, k in after]
+        pre = [argument(s, k, None) for s, k in before]
+        post = [argument(s, k, None) for s, k in after]
         reals = [r for r, _ in pre] + [real] + [r for r, _ in post]
         models = [m_ for _, m_ in pre] + [model] + [m_ for _, m_ in post]
         if container == "tuple":
@@ -499,20 +574,36 @@ def _apply(o, st_, op):
             arg = reals
         new_r = BondList.concatenate(arg)
         new_m = BondModel.concatenate(models)
+        seen = []
         for r, m_ in zip(reals, models):
-            st_.shadow(r, m_, "element of concatenate")
+            if not any(r is x for x in seen):
+                seen.append(r)
+                st_.shadow(r, m_, "element of concatenate")
         st_.real, st_.model = new_r, new_m
         st_.labels.add(f"concat_{len(reals)}")
         return True
 
     if name == "offset":
+        if op[1] < 1:
+            # docstring: "Must be positive" - 0 is not a documented argument
+            st_.labels.add("skipped_offset_0")
+            return True
         real.offset_indices(op[1])
         model.offset(op[1])
         return True
 
     if name == "dearom":
+        plain = [k for k, t in model.b.items() if t == 9]
         real.remove_aromaticity()
-        if model.remove_aromaticity():
+        # plain AROMATIC (no formal order): the docstrings fix only AROMATIC_{ORDER} -> {ORDER}; the
+        # model takes over what the real list did with these bonds if that is ANY or "unchanged"
+        # (models/bond_model.py PLAIN_AROMATIC_TARGETS), every other bond is fully determined
+        seen = {}
+        if plain:
+            seen = {(a, b): t for a, b, t in real.as_set() if (a, b) in set(plain)}
+            kept = sorted({seen.get(k) for k in plain} - {0}, key=str)
+            st_.labels.add("dearom_plain_aromatic_to_any" if not kept else f"dearom_plain_aromatic_to_{kept}")
+        if model.remove_aromaticity(seen):
             st_.labels.add("dearom_changes_type")
         return True
 
@@ -543,14 +634,14 @@ def _apply(o, st_, op):
         else:
             mask = [bool((bits >> (i % 62)) & 1) for i in range(n)]
         sel = [i for i in range(n) if mask[i]]
-        index = _layout(np.array(mask, dtype=bool), layout)
+        index = mask if layout == "list" else _layout(np.array(mask, dtype=bool), layout)
         st_.labels.add(f"mask_{layout}")
-        if layout != "C" and not index.flags.c_contiguous:
+        if layout in NONCONTIGUOUS_MASKS and not index.flags.c_contiguous:
             try:
                 new_r = real[index]
             except ValueError as e:
-                if "contiguous" not in str(e):
-                    raise
+                # any ValueError here is "this memory layout of a valid mask is refused" (the wording
+                # is NumPy's, not biotite's, and is not looked at)
                 o.fail(
                     CLAUSE_MASK_LAYOUT,
                     f"bond_list[mask] with a {layout} boolean mask of {n} atoms raised ValueError: {e}",
@@ -629,8 +720,6 @@ def run_history(case):
     st_.ctor_dups = model.ctor_collisions
     if model.ctor_type_conflicts:
         st_.labels.add("ctor_type_conflict")
-    if model.has_self_bond():
-        st_.labels.add("self_bond")
     init = case["init"]
     st_.labels.update(
         [
@@ -641,16 +730,14 @@ def run_history(case):
             "ctor_empty" if not model.b else "ctor_bonds",
         ]
     )
-    ok = _compare(o, real, model, "after construction")
+    ok = _compare(o, real, model, "after construction", st_.labels)
     for step, op in enumerate(case["ops"]):
         if not ok:
             break
         ctx = f"step {step} {op[0]}"
         if not _apply(o, st_, op):
             break
-        ok = _compare(o, st_.real, st_.model, ctx) and _check_shadows(o, st_, ctx)
-        if st_.model.has_self_bond():
-            st_.labels.add("self_bond")
+        ok = _compare(o, st_.real, st_.model, ctx, st_.labels) and _check_shadows(o, st_, ctx)
     if st_.ctor_dups:
         st_.labels.add("ctor_dup_or_reversed")
     if st_.removed:
@@ -686,14 +773,31 @@ def _oor_value(kind, k, n):
         "max32": 2**31 - 1,
         "max32-1": 2**31 - 2,
         "max32-k": 2**31 - 1 - k,
+        # beyond 32 bits: equal to a valid index modulo 2^32 (n > 0), or the 64 bit extremes
+        "wrap32": 2**32 + k % max(n, 1),
+        "wrap32m": 2**32 - 1 - k % max(n, 1),
+        "wrap32neg": -(2**32) + k % max(n, 1),
+        "max63": 2**63 - 1,
+        "min63": -(2**63),
     }[kind]
 
 
-def _dtype_for(value, dtype):
-    info = np.iinfo(dtype)
-    if info.min <= value <= info.max:
-        return dtype
-    return "int64"
+def _scalar_probe(real, method, value, other, t, vt):
+    if method == "get_bonds":
+        return (lambda: real.get_bonds(value)), f"get_bonds({vt})"
+    if method == "getitem_int":
+        return (lambda: real[value]), f"bond_list[{vt}]"
+    if method == "add_bond_1":
+        return (lambda: real.add_bond(value, other, t)), f"add_bond({vt}, {other}, {t})"
+    if method == "add_bond_2":
+        return (lambda: real.add_bond(other, value, t)), f"add_bond({other}, {vt}, {t})"
+    if method == "remove_bond_1":
+        return (lambda: real.remove_bond(value, other)), f"remove_bond({vt}, {other})"
+    if method == "remove_bond_2":
+        return (lambda: real.remove_bond(other, value)), f"remove_bond({other}, {vt})"
+    if method == "remove_bonds_to":
+        return (lambda: real.remove_bonds_to(value)), f"remove_bonds_to({vt})"
+    raise ValueError(method)
 
 
 def _probe_call(real, model, probe, value):
@@ -708,20 +812,15 @@ def _probe_call(real, model, probe, value):
     if n and probe["other_neg"]:
         other -= n
     t = probe["type"]
-    if method == "get_bonds":
-        return (lambda: real.get_bonds(value)), f"get_bonds({value})"
-    if method == "getitem_int":
-        return (lambda: real[value]), f"bond_list[{value}]"
-    if method == "add_bond_1":
-        return (lambda: real.add_bond(value, other, t)), f"add_bond({value}, {other}, {t})"
-    if method == "add_bond_2":
-        return (lambda: real.add_bond(other, value, t)), f"add_bond({other}, {value}, {t})"
-    if method == "remove_bond_1":
-        return (lambda: real.remove_bond(value, other)), f"remove_bond({value}, {other})"
-    if method == "remove_bond_2":
-        return (lambda: real.remove_bond(other, value)), f"remove_bond({other}, {value})"
-    if method == "remove_bonds_to":
-        return (lambda: real.remove_bonds_to(value)), f"remove_bonds_to({value})"
+    if method in SCALAR_METHODS:
+        sdt = probe.get("scalar_dtype")
+        value = _scalar(value, sdt)
+        return _scalar_probe(real, method, value, other, t, f"np.{value.dtype}({value})" if sdt else str(value))
+    if method in CONTAINS_METHODS:
+        # membership is asked with a non-negative partner (a negative one is refused by itself today)
+        other = probe["other"] % n if n else 0
+        pair = (value, other) if method == "contains_1" else (other, value)
+        return (lambda: pair in real), f"{pair} in bond_list"
     if method in ("getitem_array", "getitem_list"):
         sel = _select(probe["picks"], False, n)
         pos = probe["pos"] % (len(sel) + 1)
@@ -749,7 +848,7 @@ def _probe_call(real, model, probe, value):
 def _child(call, real, model):
     try:
         r = call()
-        outcome, detail = "returned", repr(r)[:300]
+        outcome, detail = ("False" if r is False else "returned"), repr(r)[:300]
     except IndexError as e:
         outcome, detail = "IndexError", str(e)[:300]
     except Exception as e:  # noqa: BLE001 - reported, not swallowed: any other type is a violation
@@ -758,8 +857,12 @@ def _child(call, real, model):
     return {"outcome": outcome, "detail": detail, "post": [list(p) for p in post[:3]]}
 
 
+SANDBOX_TIMEOUTS = (60, 180)  # seconds: first attempt, second attempt after a timeout
+
+
 def run_oor(case):
     o = Outcome()
+    _NO_FIT[0] = bool(case.get("no_fit"))
     real, model = _build(case["init"], case["n"])
     st_ = _State(real, model)
     for op in case["ops"]:
@@ -773,16 +876,40 @@ def run_oor(case):
     value = _oor_value(probe["kind"], probe["k"], n)
     assert value < -n or value >= n
     call, text = _probe_call(real, model, probe, value)
-    status, payload = run_sandboxed(_child, call, real, model, timeout=60)
+    # The child's work takes milliseconds.  A timeout says something about the machine (load, a lock
+    # held at fork time, a stopped process group), not about the index check: the probe is repeated
+    # once with a longer limit (the parent's list is untouched, the child works on its own copy) and
+    # a second timeout leaves the case undecided - it is counted, never reported.
+    status, payload = run_sandboxed(_child, call, real, model, timeout=SANDBOX_TIMEOUTS[0])
+    if status == "timeout":
+        o.label("sandbox_timeout_retried")
+        status, payload = run_sandboxed(_child, call, real, model, timeout=SANDBOX_TIMEOUTS[1])
     where = f"{text} on a list of {n} atoms / {len(model.b)} bonds"
-    if status == "signal":
+    contains = probe["method"] in CONTAINS_METHODS
+    if status == "timeout":
+        o.ambiguous += 1
+        o.label("sandbox_timeout_undecided")
+    elif status == "signal":
         o.fail(CLAUSE_OOR, f"{where}: process terminated by {payload}")
     elif status != "ok":
         o.fail(CLAUSE_OOR, f"{where}: child ended with {status} {payload}")
     else:
-        if payload["outcome"] == "returned":
+        outcome = payload["outcome"]
+        if contains:
+            # `in` has no docstring: "this pair is not a bond" (False) and a refusal with any
+            # exception are both a rejection of the index; True would be a bond to a non-atom
+            o.label(
+                {
+                    "False": "contains_answers_False",
+                    "IndexError": "contains_raises_IndexError",
+                    "raised": "contains_raises_other",
+                }.get(outcome, "contains_other")
+            )
+            if outcome == "returned":
+                o.fail(CLAUSE_OOR, f"{where}: is {payload['detail']}")
+        elif outcome in ("returned", "False"):
             o.fail(CLAUSE_OOR, f"{where}: returned {payload['detail']} instead of raising IndexError")
-        elif payload["outcome"] == "raised":
+        elif outcome == "raised":
             o.fail(CLAUSE_OOR, f"{where}: raised {payload['detail']} instead of IndexError")
         for clause, msg in payload["post"]:
             o.fail(CLAUSE_OOR, f"{where}: list changed ({clause}) {msg}")
@@ -792,6 +919,11 @@ def run_oor(case):
         o.exclude(fid)
     o.label(probe["method"], probe["kind"], _size_label(n), "has_bonds" if model.b else "no_bonds")
     o.label("below_-n" if value < -n else "at_or_above_n")
+    o.label("beyond_32_bit" if not -(2**31) <= value < 2**31 else "fits_32_bit")
+    if probe["method"] in SCALAR_METHODS:
+        o.label("scalar_numpy" if probe.get("scalar_dtype") else "scalar_python_int")
+    if st_.labels & {"merge", "plus", "concat", "index_mask", "index_array", "index_list", "index_slice", "copy"}:
+        o.label("probed_after_merge/concat/index")
     o.mark_nontrivial(len(model.b) >= 1)
     return o
 
@@ -802,46 +934,43 @@ def run_oor(case):
 RAW = st.integers(0, 2**16)
 TYPE = st.integers(0, 9)
 BITS = st.integers(0, 2**62 - 1)
-RARE = st.integers(0, 29).map(lambda x: x == 29)
+# dtype of the NumPy scalar an atom index is given as (None = Python int)
+SCALAR_DTYPE = st.one_of(st.none(), st.sampled_from(INT_DTYPES + ["int64", "int32"]))
 
 
 def st_row():
-    return st.tuples(RAW, RAW, TYPE, st.booleans(), st.booleans(), RARE).map(list)
+    # 6th field: unused (was "self pair allowed"), kept so that stored cases keep their shape
+    return st.tuples(RAW, RAW, TYPE, st.booleans(), st.booleans(), st.just(False)).map(list)
 
 
 def st_spec(max_rows, allow_cur):
+    # the parts are built once, not once per drawn case
+    long_rows = st.lists(st_row(), min_size=min(4, max_rows), max_size=max_rows)
+    base_rows = st.one_of(st.lists(st_row(), max_size=3), long_rows, long_rows)
+    echo_rows = st.lists(st.tuples(RAW, st.booleans(), TYPE, st.booleans(), st.booleans()), max_size=3)
+    cur_row = st.tuples(st.just("cur"), RAW, st.booleans(), TYPE).map(list)
+    cur_rows = [st.lists(cur_row, min_size=0, max_size=4), st.lists(cur_row, min_size=1, max_size=4)]
+    cols = st.sampled_from([2, 3, 3, 3])
+    dtypes = st.sampled_from(INT_DTYPES)
+    layouts = st.sampled_from(["C", "C"] + ARRAY_LAYOUTS)
+
     @st.composite
     def gen(draw):
-        base = draw(
-            st.one_of(
-                st.lists(st_row(), max_size=3),
-                st.lists(st_row(), min_size=min(4, max_rows), max_size=max_rows),
-                st.lists(st_row(), min_size=min(4, max_rows), max_size=max_rows),
-            )
-        )
+        base = draw(base_rows)
         rows = list(base)
         if base:
-            echoes = draw(
-                st.lists(st.tuples(RAW, st.booleans(), TYPE, st.booleans(), st.booleans()), max_size=3)
-            )
-            for k, swap, t, na, nb in echoes:
+            for k, swap, t, na, nb in draw(echo_rows):
                 src = base[k % len(base)]
                 a, b = (src[1], src[0]) if swap else (src[0], src[1])
-                rows.append([a, b, t, na, nb, src[5]])
+                rows.append([a, b, t, na, nb, False])
         if allow_cur:
-            cur = draw(
-                st.lists(
-                    st.tuples(st.just("cur"), RAW, st.booleans(), TYPE).map(list),
-                    min_size=draw(st.integers(0, 1)),
-                    max_size=4,
-                )
-            )
+            cur = draw(cur_rows[draw(st.integers(0, 1))])
             rows = cur + rows if draw(st.booleans()) else rows + cur
         return {
             "rows": rows,
-            "cols": draw(st.sampled_from([2, 3, 3, 3])),
-            "dtype": draw(st.sampled_from(INT_DTYPES)),
-            "layout": draw(st.sampled_from(["C", "C"] + ARRAY_LAYOUTS)),
+            "cols": draw(cols),
+            "dtype": draw(dtypes),
+            "layout": draw(layouts),
             "none": draw(st.booleans()),
         }
 
@@ -851,35 +980,50 @@ def st_spec(max_rows, allow_cur):
 def _mask_op(f2_open):
     def build(t):
         bits, drop_mode, layout = t
-        if f2_open and layout != "C":
+        if f2_open and layout in NONCONTIGUOUS_MASKS:
             return ["index_mask", bits, drop_mode, "C", layout]
         return ["index_mask", bits, drop_mode, layout, None]
 
-    return st.tuples(BITS, st.booleans(), st.sampled_from(["C"] + MASK_LAYOUTS)).map(build)
+    return st.tuples(BITS, st.booleans(), st.sampled_from(["C"] + MASK_LAYOUTS)).map(build)  # C twice
 
 
 def st_op(tier, in_place_only=False):
     big = tier == "thorough"
     small_n = st.integers(0, 8 if not big else 20)
-    other = st_spec(6 if not big else 14, allow_cur=True)
-    plain = st_spec(6 if not big else 14, allow_cur=False)
+    # the other operand: a fresh list, or (1 in 10) the list under test itself
+    fresh = st_spec(6 if not big else 14, allow_cur=True)
+    other = st.one_of(*([fresh] * 9), st.just("self"))
+    fresh_plain = st_spec(6 if not big else 14, allow_cur=False)
+    plain = st.one_of(*([fresh_plain] * 9), st.just("self"))
     mode = st.sampled_from([0, 1, 1, 2])
     bound = 15 if not big else 70
     picks = st.lists(st.integers(0, 1000), max_size=12 if not big else 40)
 
-    add = st.tuples(st.just("add"), RAW, RAW, st.booleans(), st.booleans(), TYPE, mode, RARE).map(list)
+    add = st.tuples(
+        st.just("add"), RAW, RAW, st.booleans(), st.booleans(), TYPE, mode, st.just(False), SCALAR_DTYPE
+    ).map(list)
     remove = st.tuples(
-        st.just("remove"), RAW, RAW, st.booleans(), st.booleans(), st.just(0), st.just(0), st.just(True)
+        st.just("remove"), RAW, RAW, st.booleans(), st.booleans(), st.just(0), st.just(0), st.just(False), SCALAR_DTYPE
     ).map(list)
 
     def existing(name):
         return st.tuples(
-            st.just(name), RAW, st.booleans(), st.booleans(), st.booleans(), TYPE, st.sampled_from([0, 1])
+            st.just(name),
+            RAW,
+            st.booleans(),
+            st.booleans(),
+            st.booleans(),
+            TYPE,
+            st.sampled_from([0, 1]),
+            SCALAR_DTYPE,
         ).map(list)
 
-    remove_to = st.tuples(st.just("remove_to"), RAW, st.booleans()).map(list)
-    remove_bonds = st.tuples(st.just("remove_bonds"), other, st.booleans(), small_n).map(list)
-    offset = st.tuples(st.just("offset"), st.integers(0, 4)).map(list)
+    remove_to = st.tuples(st.just("remove_to"), RAW, st.booleans(), SCALAR_DTYPE).map(list)
+    # remove_bonds(self) empties the list: rarer, so that it does not flatten the rest of the history
+    remove_bonds = st.tuples(
+        st.just("remove_bonds"), st.one_of(*([fresh] * 24), st.just("self")), st.booleans(), small_n
+    ).map(list)
+    offset = st.tuples(st.just("offset"), st.integers(1, 4)).map(list)  # docstring: "Must be positive"
     in_place = [
         add,
         add,
@@ -911,7 +1055,7 @@ def st_op(tier, in_place_only=False):
         picks,
         BITS,
         st.booleans(),
-        st.sampled_from(INT_DTYPES),
+        st.sampled_from(INT_DTYPES + ["int32", "int64"]),  # the dtypes of np.where / np.arange twice
         st.sampled_from(["C", "C", "strided"]),
     ).map(list)
     index_list = st.tuples(st.just("index_list"), picks, BITS, st.booleans(), st.just("int64"), st.just("C")).map(list)
@@ -963,14 +1107,26 @@ def st_history(tier):
 def st_oor(tier):
     big = tier == "thorough"
     f1_open = findings.is_open(F1)
+    # strategies are built once per call of st_oor, not once per drawn case
+    n_atoms = st_n(tier)
+    init = st_spec(10 if not big else 30, allow_cur=False)
+    in_place_op = st_op(tier, in_place_only=True)
+    in_place = st.lists(in_place_op, max_size=3)
+    # 1 in 3: the probed list (its atom count and cached maximum) comes out of merge / + /
+    # concatenate / bl[index] / copy rather than out of the constructor and in-place edits
+    derived = st.tuples(st.lists(st_op(tier), min_size=1, max_size=2), st.lists(in_place_op, max_size=1)).map(
+        lambda t: t[0] + t[1]
+    )
+    ops = st.one_of(in_place, in_place, derived)
 
     @st.composite
     def gen(draw):
-        method = draw(st.sampled_from(SCALAR_METHODS + ARRAY_METHODS + ARRAY_METHODS))
+        method = draw(st.sampled_from(SCALAR_METHODS + ARRAY_METHODS + ARRAY_METHODS + CONTAINS_METHODS))
+        wide = method not in SCALAR_METHODS
         kind = draw(
-            st.sampled_from(["lo1", "lo2"] + LO_KINDS)
+            st.sampled_from(["lo1", "lo2"] + LO_KINDS + (WIDE_LO_KINDS * 2 if wide else []))
             if draw(st.booleans())
-            else st.sampled_from(["hi0", "hi1"] + HI_KINDS)
+            else st.sampled_from(["hi0", "hi1"] + HI_KINDS + (WIDE_HI_KINDS * 2 if wide else []))
         )
         narrowed_from = None
         if f1_open and method in SCALAR_METHODS and kind in LO_KINDS:
@@ -986,11 +1142,12 @@ def st_oor(tier):
             "picks": draw(st.lists(st.integers(0, 1000), max_size=6)),
             "pos": draw(st.integers(0, 50)),
             "dtype": draw(st.sampled_from(INT_DTYPES)),
+            "scalar_dtype": draw(SCALAR_DTYPE) if method in SCALAR_METHODS else None,
         }
         return {
-            "n": draw(st_n(tier)),
-            "init": draw(st_spec(10 if not big else 30, allow_cur=False)),
-            "ops": draw(st.lists(st_op(tier, in_place_only=True), max_size=3)),
+            "n": draw(n_atoms),
+            "init": draw(init),
+            "ops": draw(ops),
             "probe": probe,
             "narrowed_from": narrowed_from,
         }
@@ -1013,12 +1170,16 @@ def bondlist_noncontiguous_mask(sub, case, clause, message):
     """C02-F2: bond_list[mask] with a boolean mask that is not C-contiguous."""
     if clause != CLAUSE_MASK_LAYOUT:
         return False
-    return any(op[0] == "index_mask" and op[3] != "C" for op in case["ops"])
+    return any(op[0] == "index_mask" and op[3] in NONCONTIGUOUS_MASKS for op in case["ops"])
 
 
 def bondlist_index_array_dtype_narrower_than_atom_count(sub, case, clause, message):
     """C02-F3: index array whose integer dtype cannot hold the atom count."""
-    return clause == "unexpected_exception" and "OverflowError" in message and "_to_positive_index_array" in message
+    if clause != "unexpected_exception" or "OverflowError" not in message:
+        return False
+    # matched on the input class (an 8 bit index array in the history), not on the name of the
+    # private helper in which the exception happens to surface
+    return any(op[0] == "index_array" and op[4] in ("int8", "uint8") for op in case.get("ops", []))
 
 
 FINDINGS = {
@@ -1039,7 +1200,9 @@ SUBS = [
         clauses="observational equality with the pair->type mapping after construction and after every "
         "add/remove/merge/+/concatenate/offset/remove_aromaticity/remove_bond_order/index/copy step; all "
         "views (as_set, as_array, get_bonds, bl[int], get_all_bonds, adjacency_matrix, bond_type_matrix, "
-        "as_graph, membership, ==, counts); operands of non-mutating operations stay unchanged",
+        "as_graph, membership, ==, counts); operands of non-mutating operations stay unchanged (also when "
+        "the list itself is given as the other operand).  Not judged: self pairs (i, i), offset 0, whether == "
+        "looks at the atom count, the target of plain AROMATIC in remove_aromaticity (ANY or unchanged)",
     ),
     Sub(
         "oor_index",
@@ -1049,7 +1212,10 @@ SUBS = [
         thorough=64000,
         rule="the list holds >= 1 bond when the out-of-range index is fed",
         clauses="an atom index outside [-n, n) is rejected with IndexError, the list is unchanged, the "
-        "process survives (get_bonds, bl[int], add_bond, remove_bond, remove_bonds_to, index arrays, index "
-        "lists, construction arrays)",
+        "process survives (get_bonds, bl[int], add_bond, remove_bond, remove_bonds_to - index given as Python "
+        "int or NumPy integer scalar; index arrays, index lists, construction arrays - also with values "
+        "beyond 32 bits); membership (i, j) in bl with such an index: False or any exception, never True, "
+        "list unchanged; probed lists come from the constructor + in-place edits or from merge/+/concatenate/"
+        "indexing",
     ),
 ]
